@@ -10,7 +10,7 @@ from fractions import Fraction as F
 from mc import domains as D
 from mc.engine import InputPart, Viol
 from mc.models import ival
-from mc.props.common import IT, PT, Textgrid, errors, call, ents, order_type, cmp3, wellformed, fresh
+from mc.props.common import IT, PT, Textgrid, errors, call, ents, order_type, cmp3, wellformed, fresh, canon
 
 MODES = fresh(("strict", "lax", "truncated"))
 
@@ -158,6 +158,38 @@ def _check_tg(case):
                 viols.append(Viol("tg-crop-result", msg + f"  [tiers {tiers}]"))
             summary.append(str(cnt))
     return n, "/".join(summary), (tuple(order_type(e, (a, b)) for _, _, e in tiers), cmp3(a, b)), viols
+
+
+def _check_tg_grown(case):
+    """a tier that was GROWN IN PLACE (insertEntry beyond its old end / before its old start) after it had been added to the textgrid: the tier
+    widened its own span, the textgrid's own span fields still say what they said.  Textgrid.crop crops the tiers - what the tiers hold
+    decides, not what the container remembers about them"""
+    si, where, a, b = case
+    from mc.props import compose
+    tg = compose._tg_seed(si)      # textgrid 0 .. 4
+    late = {"after": ((5.0, 6.0), 5.5), "before": ((-2.0, -1.0), -1.5)}[where]
+    for t in tg.tiers:
+        t.insertEntry((late[0][0], late[0][1], "late") if isinstance(t, IT) else (late[1], "late"), "error", "silence")
+    viols = []
+    n = 0
+    for mode in MODES:
+        for rb in (False, True):
+            n += 1
+            st, r, _ = call(tg.crop, a, b, mode, rb)
+            want = [call(t.crop, a, b, mode, rb) for t in tg.tiers]
+            tag = f"Textgrid.crop({a},{b},{mode},{rb}) on seed textgrid {si} whose tiers were each extended in place by an entry {where} the old span"
+            if st == "exc":
+                if all(w[0] == "ok" for w in want):
+                    viols.append(Viol("crop-raised:" + type(r).__name__, f"{tag}: {r!r}"))
+                continue
+            got = [canon(t)[2:] for t in r.tiers]
+            exp = [canon(w[1])[2:] if w[0] == "ok" else None for w in want]
+            if got != exp:
+                viols.append(Viol("tg-crop-differs-from-its-tiers", f"{tag}: tiers of the result {got}, the tiers cropped one by one {exp}"))
+                break
+        if viols:
+            break
+    return n, "ok" if not viols else "!", (si, where, a, b), viols
 
 
 def _snippet_iv(case):
@@ -363,6 +395,15 @@ def parts(tier):
              "and with one tier x all windows incl. a >= b); "
              "tier-wise comparison with the model, textgrid span, validate() for strict/truncated",
         bounds={"tiers": 3, "stride_over_second_and_third_tier": 3 if quick else 1}))
+
+    ps.append(InputPart(
+        "crop-textgrid-with-tiers-grown-in-place",
+        lambda: ((si, where, a, b) for si in range(3) for where in ("after", "before")
+                 for a, b in ((4.5, 6.5), (5.0, 6.0), (3.0, 5.5), (4.0, 7.0), (5.25, 5.75), (-3.0, -0.5), (-2.0, -1.0), (-1.5, 1.0), (-1.75, -1.25), (1.0, 3.0))),
+        _check_tg_grown,
+        rule="3 seed textgrids whose tiers were each extended IN PLACE (insertEntry) by an entry beyond the old end / before the old start after they had "
+             "been added x 10 windows (around the new entries, across the old boundary, inside the old span) x 3 modes x rebase: the tiers of "
+             "Textgrid.crop equal the tiers cropped one by one", bounds={}, chunk=4))
 
     # history independence of the operations of this property (shared battery, see mc/props/live.py)
     from mc.props import live as _live, tierops as _tierops
